@@ -326,10 +326,10 @@ theorem plainL_of_sub {l l' : List DNode} (h : plainL l' = true) (hs : ∀ x ∈
     simp only [plainL, Bool.and_eq_true]
     exact ⟨plainL_mem h (hs y (List.mem_cons_self ..)), ih (fun x hx => hs x (List.mem_cons_of_mem _ hx))⟩
 
-theorem childInh_of_effOp_create {inh : Option Op} {d : DNode} (h : effOp inh d = some .create) :
-    childInh inh d = some .create := by
+theorem childInh_of_effOp_create {inh : Option Op} {d : DNode} (h : effOp d inh = some .create) :
+    childInhOf d inh = some .create := by
   unfold effOp at h
-  unfold childInh
+  unfold childInhOf
   cases ho : ownOp d with
   | none => simpa [ho] using h
   | some o =>
@@ -384,9 +384,9 @@ theorem dupSingle_setKids (S : Schema) (d : DNode) : (dupSingle S d).setKids (mk
 /-- the loop that creates the children of a created node: every child lands behind the ones created before it -/
 theorem applyF_create {S : Schema} (K : KeyOrder S) {n : Nat} {hp : Bool}
     (IH : ∀ c L, c.height ≤ n → plainN c = true → goodN S c = true →
-      applyNode S n L hp (some .create) c = .ok (insertNode S L (mkCreated c)))
+      applyNode S fx n L hp (some .create) c = .ok (insertNode S L (mkCreated c)))
     (rest pre : List DNode) (hg : goodL S (pre ++ rest) = true) (hpl : plainL rest = true) (hh : heightL rest ≤ n) :
-    applyF S n hp (some .create) rest (mkCreatedL pre) = .ok (mkCreatedL (pre ++ rest)) := by
+    applyF S fx n hp (some .create) rest (mkCreatedL pre) = .ok (mkCreatedL (pre ++ rest)) := by
   induction rest generalizing pre with
   | nil => simp [applyF_nil]
   | cons c cs ih =>
@@ -417,7 +417,7 @@ theorem applyF_create {S : Schema} (K : KeyOrder S) {n : Nat} {hp : Bool}
 
 /-- `create` with a plain good subtree (the operation is inherited): `lyd_insert_node` of the created form -/
 theorem apply_create_plain {S : Schema} (K : KeyOrder S) : ∀ (n : Nat) (hp : Bool) (c L : _), c.height ≤ n → plainN c = true →
-    goodN S c = true → applyNode S n L hp (some .create) c = .ok (insertNode S L (mkCreated c)) := by
+    goodN S c = true → applyNode S fx n L hp (some .create) c = .ok (insertNode S L (mkCreated c)) := by
   intro n
   induction n with
   | zero =>
@@ -428,8 +428,8 @@ theorem apply_create_plain {S : Schema} (K : KeyOrder S) : ∀ (n : Nat) (hp : B
     intro hp c L hh hpl hg
     have hd := goodN_dom hg
     rw [applyNode_succ_nuo hd.nuo]
-    have hop : effOp (some .create) c = some .create := by simp [effOp, plainN_ownOp hpl]
-    have hci : childInh (some .create) c = some .create := childInh_of_effOp_create hop
+    have hop : effOp c (some .create) = some .create := by simp [effOp, plainN_ownOp hpl]
+    have hci : childInhOf c (some .create) = some .create := childInh_of_effOp_create hop
     simp only [hop, hci]
     have hkids : heightL c.kids ≤ n := by
       cases c with
